@@ -145,10 +145,14 @@ class WC(CombinatorialClass[W]):
             cls = WCMA if d["just_prefix"] else WCM
         if d.get("hash") == "coarse":
             cls = WCBH if d.get("bytes") else WCH
+        if d.get("twin") and cls is WC:
+            from vuniv import words_twin  # pylint: disable=import-outside-toplevel
+
+            cls = words_twin.WC
         right = d.get("right")
         if right is not None:
             right = WC.from_descriptor(dict(right, bytes=bool(d.get("bytes")), hash=d.get("hash"),
-                                             mixed=d.get("mixed")))
+                                             mixed=d.get("mixed"), twin=d.get("twin")))
         return cls(d["prefix"], d["patterns"], d["alphabet"], d["just_prefix"],
                    [tuple(s) for s in d["stats"]], d.get("proper", False), right, d.get("flags") or "",
                    bool(d.get("lazymin")))
@@ -680,6 +684,36 @@ class LetterSym(_Opts, SymmetryStrategy[WC, W]):
         yield W(objs[0].translate(self._tr(c)))
 
 
+class SymOrbit(StrategyFactory[WC]):
+    """A symmetry factory yielding the whole orbit of the class under the letter symmetry as
+    ready rules: the rule for the class itself and the rule that leads from its image back to
+    it - a rule whose parent is not the class being expanded."""
+
+    def __call__(self, c):
+        sym = LetterSym()
+        try:
+            rule = sym(c)
+            image = rule.children[0]
+        except StrategyDoesNotApply:
+            return
+        yield rule
+        if image != c:
+            yield sym(image)
+
+    def __str__(self):
+        return "orbit under the letter symmetry"
+
+    def __repr__(self):
+        return "SymOrbit()"
+
+    def to_jsonable(self):
+        return super().to_jsonable()
+
+    @classmethod
+    def from_dict(cls, d):
+        return cls()
+
+
 class LetterSymNE(_Opts, DisjointUnionStrategy[WC, W]):
     """The letter symmetry as an ordinary two-way single-child rule that is *not* an equivalence
     (can_be_equivalent False) and whose child is workable: every class of the universe shares
@@ -844,15 +878,17 @@ class ExpandFactory(StrategyFactory[WC]):
     3: yields a lazily built rule whose children are computed on demand;
     4: first the rule about the shorter-prefix class, then the strategy for the class itself;
     5: own strategy plus a two-step rule about the shorter-prefix class; 6: only the rule of the
-    class it is a child of (own expansion for the empty prefix only)."""
+    class it is a child of (own expansion for the empty prefix only); 7: a family of strategies
+    of which the first applies to some classes only."""
 
-    def __init__(self, mode=0, drop=False, plus=False):
+    def __init__(self, mode=0, drop=False, plus=False, dead=False, order=0):
         self.mode, self.drop, self.plus = int(mode), bool(drop), bool(plus)
+        self.dead, self.order = bool(dead), int(order)
 
     def __call__(self, c):
         if c.flags:
             return
-        strat = Expand(drop=self.drop, plus=self.plus)
+        strat = Expand(drop=self.drop, plus=self.plus, dead=self.dead, order=self.order)
         if self.mode == 0:
             yield strat
             return
@@ -880,12 +916,24 @@ class ExpandFactory(StrategyFactory[WC]):
             # whose parent is another class) - a specification has to read such rules backwards
             if c.just_prefix:
                 return
+            above = None
             if c.proper and self.plus:
-                yield strat(c.with_(proper=False))
+                above = strat(c.with_(proper=False))
             elif c.prefix and not c.proper:
-                yield strat(c.with_(prefix=c.prefix[:-1], proper=self.plus))
+                above = strat(c.with_(prefix=c.prefix[:-1], proper=self.plus))
+            # (a factory only yields rules in which the class it was called on occurs: when the
+            # class above has this one as a child in another form - statistics shed - the class
+            # keeps its own expansion)
+            if above is not None and c in above.children:
+                yield above
             else:
                 yield strat
+            return
+        if self.mode == 7:
+            # a whole family of strategies, the searcher filters: the first one applies to some
+            # classes only and comes *before* the one that works everywhere
+            yield RemoveFront(drop=self.drop)
+            yield strat
             return
         if self.mode == 4 and c.prefix and not c.just_prefix:
             # the rule about the other class comes first, the class's own strategy after it
@@ -904,11 +952,12 @@ class ExpandFactory(StrategyFactory[WC]):
         return f"expand factory(mode={self.mode})"
 
     def __repr__(self):
-        return f"ExpandFactory(mode={self.mode}, drop={self.drop}, plus={self.plus})"
+        return (f"ExpandFactory(mode={self.mode}, drop={self.drop}, plus={self.plus}"
+                f"{', dead=True' if self.dead else ''}{', order=%d' % self.order if self.order else ''})")
 
     def to_jsonable(self):
         d = super().to_jsonable()
-        d.update(mode=self.mode, drop=self.drop, plus=self.plus)
+        d.update(mode=self.mode, drop=self.drop, plus=self.plus, dead=self.dead, order=self.order)
         return d
 
     @classmethod
@@ -1208,7 +1257,8 @@ def make_pack(opts=None):
     if o["factory"] is None:
         expand = Expand(drop=o["drop"], order=o["order"], plus=o["plus"], dead=o.get("dead", False))
     else:
-        expand = ExpandFactory(mode=o["factory"], drop=o["drop"], plus=o["plus"])
+        expand = ExpandFactory(mode=o["factory"], drop=o["drop"], plus=o["plus"], dead=o.get("dead", False),
+                               order=o["order"])
     inf_map = {"minimise": MinimisePatterns, "minimise_ne": MinimiseNE, "deadstat": DropDeadStat, "merge": MergeStats,
                "rename": RenameStats, "track": TrackStat}
     inferral = [inf_map[name]() for name in o["inferral"]]
@@ -1242,6 +1292,6 @@ def make_pack(opts=None):
         expansion_strats=sets,
         ver_strats=ver,
         name="words:" + json.dumps(o, sort_keys=True),
-        symmetries=[LetterSym()] if o["sym"] and o["sym"] != "ne" else [],
+        symmetries=([SymOrbit()] if o["sym"] == "orbit" else [LetterSym()]) if o["sym"] and o["sym"] != "ne" else [],
         iterative=o["iterative"],
     )
